@@ -94,6 +94,9 @@ var junkNames = []string{"", "A", "a128gcm", "A128GCM ", "A999KW", "NOPE-ALG"}
 func constNames() (names []string, fromSource bool) {
 	dir := os.Getenv("VERIF_KIT_DIR")
 	if dir == "" {
+		dir = os.Getenv("VERIF_REPO")
+	}
+	if dir == "" {
 		dir = "/repo"
 	}
 	f, err := parser.ParseFile(token.NewFileSet(), filepath.Join(dir, "crypto", "consts.go"), nil, 0)
@@ -269,8 +272,14 @@ var (
 	masters     [][]byte // snapshots to prove the check never had its inputs modified
 )
 
+// kwLongLens are key-data lengths (bytes) for which the RFC 3394 step counter
+// t = n*j+i (at most 6n) leaves one byte (6n > 255 from n = 43) and two bytes
+// (6n > 65535 from n = 10923): 8 x {42, 43, 44, 64, 128, 10923}. n = 42 is the
+// last length for which a counter kept in one byte is still right.
+var kwLongLens = []int{8 * 42, 8 * 43, 8 * 44, 8 * 64, 8 * 128, 8 * 10923}
+
 func initData() {
-	ptMaster = cryptokeys.Bytes("plaintext", 128)
+	ptMaster = cryptokeys.Bytes("plaintext", kwLongLens[len(kwLongLens)-1]+64)
 	nonceMaster = cryptokeys.Bytes("nonce", 40)
 	tagExt = cryptokeys.Bytes("tag-extension", 40)
 	aads = [3][]byte{nil, {}, cryptokeys.Bytes("associated-data", 5)}
